@@ -82,6 +82,9 @@ func (c *C12) Run(x *engine.Ctx) *engine.Violation {
 		depth = 31
 	}
 	batch := 1 + t.Draw(4)
+	if t.Chance(1, 4) {
+		batch = 5 + t.Draw(6) // larger batches: a field that only matters above some size
+	}
 	if batch == depth {
 		batch++
 	}
